@@ -936,5 +936,5 @@ def gen_outcomes(rng, case, kinds, nfail=None):
         if name in bad:
             out[name] = rng.choice(kinds)
         else:
-            out[name] = rng.choice(['ok'] * 18 + ['ok_none', 'ok_int_status'])
+            out[name] = rng.choice(['ok'] * 18 + ['ok_none', 'ok_none'])
     return out
